@@ -130,10 +130,10 @@ fn probe_in_child(lib: &[(String, String)], key: &str, depth: u8) -> Option<Stri
                     None => None, // a panic (exit 101) is looked at in-process
                 };
             }
-            Ok(None) if start.elapsed() > std::time::Duration::from_secs(20) => {
+            Ok(None) if start.elapsed() > std::time::Duration::from_secs(90) => {
                 let _ = child.kill();
                 let _ = child.wait();
-                break Some(format!("squash({:?}, {}) did not terminate within 20 s", key, depth));
+                break Some(format!("squash({:?}, {}) did not terminate within 90 s", key, depth));
             }
             Ok(None) => std::thread::sleep(std::time::Duration::from_millis(5)),
             Err(_) => break None,
@@ -159,10 +159,10 @@ pub fn check(lib: &[(String, String)], key: &str, depth: u8) -> Option<String> {
             let r = dump::catch(|| (&g).squash(&Key::from_file_name(&key2), depth));
             let _ = tx.send(r);
         });
-        rx.recv_timeout(std::time::Duration::from_secs(20))
+        rx.recv_timeout(std::time::Duration::from_secs(90))
     });
     let tree = match res {
-        Err(_) => return Some(format!("squash({:?}, {}) did not terminate within 20 s", key, depth)),
+        Err(_) => return Some(format!("squash({:?}, {}) did not terminate within 90 s", key, depth)),
         Ok(Err(p)) => return Some(format!("squash({:?}, {}) panics: {}", key, depth, p)),
         Ok(Ok(t)) => t,
     };
